@@ -62,9 +62,12 @@ type File struct {
 	Disable []string `json:"disable,omitempty"` // "# pint file/disable X" comments, in order
 	Note    string   `json:"note,omitempty"`    // plain header comment
 	Groups  []Group  `json:"groups"`
-	Indent  int      `json:"indent,omitempty"` // 0 or 2: indentation of sequence items under their key
-	DocSep  bool     `json:"doc_sep,omitempty"`
-	Tail    int      `json:"tail,omitempty"` // trailing blank lines
+	// Bare: the file is a bare list of rules (no groups / name / rules keys): only valid for pint
+	// when its path is matched by parser { relaxed = [...] }. Group names are not rendered.
+	Bare   bool `json:"bare,omitempty"`
+	Indent int  `json:"indent,omitempty"` // 0 or 2: indentation of sequence items under their key
+	DocSep bool `json:"doc_sep,omitempty"`
+	Tail   int  `json:"tail,omitempty"` // trailing blank lines
 }
 
 // RuleInfo is where the renderer put a rule.
@@ -272,21 +275,29 @@ func Render(f File) (string, []RuleInfo) {
 	}
 	var infos []RuleInfo
 	ind := strings.Repeat(" ", f.Indent)
-	if len(f.Groups) == 0 {
+	switch {
+	case f.Bare && len(f.Rules()) == 0:
+		w.ln("[]")
+	case f.Bare:
+	case len(f.Groups) == 0:
 		w.ln("groups: []")
-	} else {
+	default:
 		w.ln("groups:")
 	}
 	idx := 0
 	for gi, g := range f.Groups {
-		w.ln(ind + "- name: " + dq(g.Name))
 		gpad := ind + "  "
-		if len(g.Rules) == 0 {
-			w.ln(gpad + "rules: []")
-			continue
-		}
-		w.ln(gpad + "rules:")
 		rpad := gpad + ind // column of the dash
+		if f.Bare {
+			rpad = ""
+		} else {
+			w.ln(ind + "- name: " + dq(g.Name))
+			if len(g.Rules) == 0 {
+				w.ln(gpad + "rules: []")
+				continue
+			}
+			w.ln(gpad + "rules:")
+		}
 		kpad := rpad + "  "
 		for _, r := range g.Rules {
 			for i := 0; i < r.Blank; i++ {
